@@ -183,8 +183,10 @@ def same_structure(a, b):
     return set(a) == set(b) and all(same_structure(a[k], b[k]) for k in a)
 
 def r_dict(ctx, a):
+    import copy
     jax, jnp, pu = J()
     d, sep, prefix = a['d'], a['sep'], a['prefix']
+    d0 = copy.deepcopy(d)
     bad = keys_have_sep(d, sep)
     ctx.count('dict:' + ('malformed' if bad else 'wellformed'))
     ctx.count('dict:depth=%d' % _depth(d))
@@ -226,6 +228,26 @@ def r_dict(ctx, a):
         if want is not None:
             ctx.oracle('unflatten_dict(flatten_dict(d)) == d', r == want, {'d': d, 'got': r})
             ctx.oracle('flat keys are strings without nesting', all(not isinstance(v, dict) for v in flat.values()))
+        # purity: inputs untouched (also their key order), repeated calls identical, results do not alias each other
+        flat_c, empt_c = dict(flat), tuple(empt)
+        f2, e2 = pu.flatten_dict(d, prefix=prefix, sep=sep)
+        r2 = pu.unflatten_dict(flat, empt, sep=sep) if r is not None else None
+        ok = (json.dumps(d) == json.dumps(d0) and list(f2.items()) == list(flat_c.items()) and e2 == empt_c and
+              list(flat.items()) == list(flat_c.items()) and empt == empt_c)
+        if r is not None:
+            ok = ok and json.dumps(r2) == json.dumps(r)
+            # mutating one (empty) sub-dictionary of one result must not show up anywhere else
+            def empties_of(t, acc):
+                for v in t.values():
+                    if isinstance(v, dict):
+                        if v: empties_of(v, acc)
+                        else: acc.append(v)
+                return acc
+            r_before = json.dumps(r)
+            em = empties_of(r2, [])
+            (em[0] if em else r2)['__probe__'] = 1
+            ok = ok and json.dumps(r) == r_before and json.dumps(r2).count('__probe__') == 1 and json.dumps(d) == json.dumps(d0)
+        ctx.oracle(PURE, ok, {'fn': 'flatten_dict/unflatten_dict', 'd': d0})
 
 
 def _depth(d):
@@ -262,6 +284,7 @@ def r_unflatten(ctx, a):
 def r_replace(ctx, a):
     jax, jnp, pu = J()
     x, rep, default, check = a['x'], a['rep'], a['default'], a['check']
+    x0, rep0 = json.dumps(x), json.dumps(rep)
     try:
         r = pu.replace_with_matching_or_default(x, rep, default=default, check_used_all_replace_keys=check)
         impl = [1] + enc_tree(r)
@@ -270,6 +293,7 @@ def r_replace(ctx, a):
     m = ctx.model.call(3, [default, int(check)] + enc_tree(x) + enc_tree(rep))
     ctx.exact('replace_with_matching_or_default', impl, ints_of(m))
     ctx.count('replace:' + ('ok' if r is not None else 'raises'))
+    ctx.oracle(PURE, json.dumps(x) == x0 and json.dumps(rep) == rep0, {'fn': 'replace_with_matching_or_default'})
     if r is not None:
         ctx.oracle('replace_with_matching_or_default keeps the structure of x', same_structure(r, x), {'x': x, 'got': r})
         def leaves_ok(rx, xx, rr):
@@ -289,14 +313,34 @@ def r_replace(ctx, a):
 # ---------------------------------------------------------------------------
 # pytrees of arrays
 # ---------------------------------------------------------------------------
-def leaf_data(i, shape):
+FORMS = ['f8', 'f8', 'i4', 'f4', 'strided', 'readonly', 'bool']
+def leaf_data(i, shape, form=None):
+    """deterministic leaf; form: dtype / memory layout variants (values exactly representable everywhere)"""
     n = int(np.prod(shape)) if len(shape) else 1
-    return (((np.arange(n) * 7 + i * 13) % 64) / 4.0 - 5.0).reshape(shape)
+    base = ((np.arange(n) * 7 + i * 13) % 64)
+    if form == 'i4': return (base - 20).astype(np.int32).reshape(shape)
+    if form == 'bool': return (base % 3 == 0).reshape(shape)
+    x = (base / 4.0 - 5.0).reshape(shape)
+    if form == 'f4': return x.astype(np.float32)
+    if form == 'strided':
+        big = np.zeros(tuple(shape) + (2,)); big[..., 0] = x; big[..., 1] = -77.0
+        return big[..., 0]                      # non-contiguous view
+    if form == 'readonly':
+        x.setflags(write=False)
+    return x
+
+def forms_for(a, n):
+    f = a.get('forms')
+    if f is None: return [None] * n
+    if isinstance(f, str): return [f] * n
+    return [f[j % len(f)] for j in range(n)]
 
 def build(struct, leaves):
     if isinstance(struct, dict):
         if 'L' in struct and len(struct) == 1 and isinstance(struct['L'], int):
             return leaves[struct['L']]
+        if 'N' in struct and len(struct) == 1:
+            return None                          # jax treats None as a subtree without leaves
         return {k: build(v, leaves) for k, v in struct.items()}
     return [build(v, leaves) for v in struct]
 
@@ -318,6 +362,8 @@ def rand_struct(rng, n):
     st = nest(items, 0)
     if isinstance(st, dict) and 'L' in st and len(st) == 1:
         st = {'only': st}
+    if rng.random() < 0.25:
+        st = {'a_none': {'N': 0}, 'tree': st, 'z_none': [{'N': 0}, {}]}
     return st
 
 def rows(x, axis):
@@ -342,7 +388,16 @@ def flo(m):
 def same_tree(jax, a, b):
     la, ta = jax.tree_util.tree_flatten(a); lb, tb = jax.tree_util.tree_flatten(b)
     return ta == tb and len(la) == len(lb) and all(
-        np.asarray(x).shape == np.asarray(y).shape and np.array_equal(np.asarray(x), np.asarray(y)) for x, y in zip(la, lb))
+        np.asarray(x).shape == np.asarray(y).shape and np.asarray(x).dtype == np.asarray(y).dtype and
+        np.array_equal(np.asarray(x), np.asarray(y)) for x, y in zip(la, lb))
+
+def snapshot(leaves):
+    return [(np.asarray(x).dtype, np.asarray(x).shape, np.asarray(x).tobytes()) for x in leaves]
+
+def desc_rank_list(shapes):
+    """flat list pytree whose FIRST leaf (flatten order) has the highest rank"""
+    order = sorted(range(len(shapes)), key=lambda j: -len(shapes[j]))
+    return [{'L': j} for j in order]
 
 def gen_arrays(ctx):
     rng = ctx.rng
@@ -356,13 +411,15 @@ def gen_arrays(ctx):
         shapes = []
         for _ in range(nl):
             sh = list(other); sh[axis] = int(rng.integers(0, 5)); shapes.append(sh)
-        yield 'pack', {'struct': rand_struct(rng, nl), 'shapes': shapes, 'axis': axis}
+        yield 'pack', {'struct': rand_struct(rng, nl), 'shapes': shapes, 'axis': axis,
+                       'forms': FORMS[int(rng.integers(0, len(FORMS)))]}
     for i in range(n):
         nl = int(rng.integers(0, 5)) if i % 6 else 0
         ndim = int(rng.integers(0, 4))
-        shape = [int(rng.integers(1, 4)) for _ in range(ndim)]
+        shape = [int(rng.integers(0 if rng.random() < 0.1 else 1, 4)) for _ in range(ndim)]   # sometimes empty leaves
         axis = int(rng.integers(-(ndim + 1), ndim + 1))
-        yield 'stack', {'struct': rand_struct(rng, nl), 'shape': shape, 'n': nl, 'axis': axis}
+        yield 'stack', {'struct': rand_struct(rng, nl), 'shape': shape, 'n': nl, 'axis': axis,
+                        'forms': FORMS[int(rng.integers(0, len(FORMS)))]}
     for i in range(n):
         nl = int(rng.integers(1, 5))
         same = bool(i % 2)
@@ -373,25 +430,33 @@ def gen_arrays(ctx):
             shapes.append([int(rng.integers(0 if rng.random() < 0.1 else 1, 6)) for _ in range(ndim)])
         mind = min(len(sh) for sh in shapes)
         axis = int(rng.integers(0, mind))   # negative axes are always rejected by slice_along_axis
-        yield 'split', {'struct': rand_struct(rng, nl), 'shapes': shapes, 'axis': axis, 'same': same,
-                        'idx': int(rng.integers(-8, 9))}
+        struct = desc_rank_list(shapes) if (not same and i % 4 == 0) else rand_struct(rng, nl)
+        yield 'split', {'struct': struct, 'shapes': shapes, 'axis': axis, 'same': same,
+                        'idx': int(rng.integers(-8, 9)), 'forms': FORMS}
     for i in range(n):
         nl = int(rng.integers(0, 4)) if i % 7 else 0
         ndim = int(rng.integers(1, 4))
         axis = int(rng.integers(-ndim, ndim))
         nax = int(rng.integers(0 if i % 5 == 0 else 1, 5))
         shapes = []
+        mixed = (i % 3 == 2)                       # leaves of different rank, non-negative axis
+        if mixed: axis = int(rng.integers(0, ndim))
         for j in range(nl):
-            sh = [int(rng.integers(1, 4)) for _ in range(ndim)]
+            nd = ndim + (int(rng.integers(0, 3)) if mixed else 0)
+            sh = [int(rng.integers(1, 4)) for _ in range(nd)]
             sh[axis] = nax + (1 if (i % 9 == 0 and j == nl - 1) else 0)   # sometimes unequal: must raise
             shapes.append(sh)
-        yield 'split_axis', {'struct': rand_struct(rng, nl), 'shapes': shapes, 'axis': axis, 'keep': bool(i % 2)}
+        struct = desc_rank_list(shapes) if (mixed and i % 2) else rand_struct(rng, nl)
+        yield 'split_axis', {'struct': struct, 'shapes': shapes, 'axis': axis, 'keep': bool(i % 2), 'forms': FORMS}
     for i in range(n):
         nt = int(rng.integers(0 if i % 8 == 0 else 1, 4))
         nl = int(rng.integers(1, 4))
         ndim = int(rng.integers(1, 4))
         axis = int(rng.integers(-ndim, ndim))
-        others = [[int(rng.integers(1, 4)) for _ in range(ndim)] for _ in range(nl)]
+        mixed = (i % 3 == 2)
+        if mixed: axis = int(rng.integers(0, ndim))
+        nds = sorted([ndim + (int(rng.integers(0, 3)) if mixed else 0) for _ in range(nl)], reverse=True)  # highest rank first
+        others = [[int(rng.integers(1, 4)) for _ in range(nds[j])] for j in range(nl)]
         trees = []
         for t in range(nt):
             k = nl - 1 if (i % 10 == 0 and t == nt - 1 and nl > 1) else nl   # sometimes a structure mismatch
@@ -399,12 +464,16 @@ def gen_arrays(ctx):
             for j in range(k):
                 sh = list(others[j]); sh[axis] = int(rng.integers(0, 4)); shs.append(sh)
             trees.append(shs)
-        yield 'concat', {'trees': trees, 'axis': axis}
+        yield 'concat', {'trees': trees, 'axis': axis, 'forms': FORMS}
 
 
 def _mk(a, shapes_key='shapes'):
-    leaves = [leaf_data(i, tuple(sh)) for i, sh in enumerate(a[shapes_key])]
+    fm = forms_for(a, len(a[shapes_key]))
+    leaves = [leaf_data(i, tuple(sh), fm[i]) for i, sh in enumerate(a[shapes_key])]
     return leaves, build(a['struct'], leaves)
+
+PURE = 'tree utilities are pure: inputs are not modified and a repeated call gives the identical result'
+
 
 
 def r_pack(ctx, a):
@@ -426,15 +495,21 @@ def r_pack(ctx, a):
     ctx.exact('unpack_to_pytree', [1.0] + enc_leaves(jax.tree_util.tree_leaves(un), axis), flo(m))
     ctx.oracle('unpack_to_pytree(pack_pytree(t)) == t', same_tree(jax, un, tree), {'shapes': a['shapes'], 'axis': axis})
     ctx.oracle('packed size along the axis is the sum of the leaf sizes', np.asarray(packed).shape[axis] == sum(sizes))
+    snap = snapshot(leaves); psnap = snapshot([packed])
+    packed2 = pu.pack_pytree(tree, axis); un2 = pu.unpack_to_pytree(packed, shapes, axis)
+    ctx.oracle(PURE, snapshot([packed2]) == psnap and same_tree(jax, un2, un) and snapshot(leaves) == snap and
+               snapshot([packed]) == psnap, {'fn': 'pack/unpack'})
+    ctx.count('pack:form=%s' % a.get('forms'))
 
 
 def r_stack(ctx, a):
     jax, jnp, pu = J()
-    leaves0 = [leaf_data(i, tuple(a['shape'])) for i in range(a['n'])]
+    fm = forms_for(a, a['n'])
+    leaves0 = [leaf_data(i, tuple(a['shape']), fm[i]) for i in range(a['n'])]
     tree = build(a['struct'], leaves0); axis = a['axis']
     leaves = [np.asarray(x) for x in jax.tree_util.tree_leaves(tree)]
     st = pu.stack_pytree(tree, axis)
-    m = ctx.model.call(12, [], [x.ravel() for x in leaves])
+    m = ctx.model.call(12, [len(leaves)], [x.ravel() for x in leaves])
     ctx.exact('stack_pytree', [0.0] if st is None else [1.0] + rows(st, axis).ravel().tolist(), flo(m))
     if not leaves:
         ctx.oracle('empty pytree stacks to None', st is None)
@@ -446,12 +521,16 @@ def r_stack(ctx, a):
     ul = jax.tree_util.tree_leaves(un)
     ctx.exact('unstack_to_pytree', [1.0, float(len(ul))] + [float(v) for x in ul for v in np.asarray(x).ravel()], flo(m))
     ctx.oracle('unstack_to_pytree(stack_pytree(t)) == t', same_tree(jax, un, tree), {'shape': a['shape'], 'axis': axis})
+    snap = snapshot(leaves)
+    st2 = pu.stack_pytree(tree, axis); un2 = pu.unstack_to_pytree(st, shapes, axis)
+    ctx.oracle(PURE, snapshot([st2]) == snapshot([st]) and same_tree(jax, un2, un) and snapshot(leaves) == snap, {'fn': 'stack/unstack'})
 
 
 def r_split(ctx, a):
     jax, jnp, pu = J()
     _, tree = _mk(a); axis = a['axis']; idx = a['idx']
     leaves = [np.asarray(x) for x in jax.tree_util.tree_leaves(tree)]
+    snap0 = snapshot(leaves)
     first, second = pu.split_along_axis(tree, idx, axis, expect_same_dims=a['same'])
     f = jax.tree_util.tree_leaves(first); s2 = jax.tree_util.tree_leaves(second)
     axes = [axis if axis >= 0 else axis + x.ndim for x in leaves]
@@ -477,6 +556,11 @@ def r_split(ctx, a):
     ctx.exact('concat_along_axis', [1.0] + enc(jax.tree_util.tree_leaves(back)), flo(m))
     ctx.oracle('concat_along_axis(split_along_axis(t, i)) == t', same_tree(jax, back, tree),
                {'shapes': a['shapes'], 'axis': axis, 'idx': idx})
+    first2, second2 = pu.split_along_axis(tree, idx, axis, expect_same_dims=a['same'])
+    ctx.oracle(PURE, same_tree(jax, first2, first) and same_tree(jax, second2, second) and snapshot(leaves) == snap0, {'fn': 'split_along_axis'})
+    ranks = [x.ndim for x in leaves]
+    if len(set(ranks)) > 1:
+        ctx.count('split:mixed ranks, highest first' if ranks[0] == max(ranks) and ranks[0] > min(ranks) else 'split:mixed ranks')
 
 
 def r_split_axis(ctx, a):
@@ -500,6 +584,11 @@ def r_split_axis(ctx, a):
                 imp += [float(len(tl))] + [float(v) for x in tl for v in np.asarray(x).ravel()]
     ctx.exact('split_axis', imp, flo(m))
     ctx.count('split_axis:' + ('ok' if out is not None else 'raises'))
+    if len({x.ndim for x in leaves}) > 1: ctx.count('split_axis:mixed ranks')
+    if out is not None:
+        snap = snapshot(leaves); out2 = pu.split_axis(tree, axis, keep_dims=keep)
+        ctx.oracle(PURE, len(out2) == len(out) and all(same_tree(jax, u, w) for u, w in zip(out, out2)) and snapshot(leaves) == snap,
+                   {'fn': 'split_axis'})
     sizes = {x.shape[axis] for x in leaves}
     ctx.oracle('split_axis raises iff the axis sizes are not all equal (or the tree/axis is empty)',
                (out is None) == (len(sizes) != 1 or 0 in sizes), {'shapes': a['shapes']})
@@ -521,7 +610,7 @@ def r_concat(ctx, a):
     for shs in a['trees']:
         t = {}
         for j, sh in enumerate(shs):
-            t['k%d' % j] = leaf_data(c, tuple(sh)); c += 1
+            t['k%d' % j] = leaf_data(c, tuple(sh), FORMS[j % len(FORMS)] if a.get('forms') else None); c += 1
         trees.append(t)
     try:
         out = pu.concat_along_axis(trees, axis)
@@ -538,8 +627,10 @@ def r_concat(ctx, a):
         # splitting the result at the recorded sizes gives the parts back
         n0 = [x.shape[axis] for x in jax.tree_util.tree_leaves(trees[0])]
         if len(set(n0)) == 1:
-            nd = np.asarray(jax.tree_util.tree_leaves(out)[0]).ndim
-            f, s2 = pu.split_along_axis(out, n0[0], axis if axis >= 0 else axis + nd, expect_same_dims=True)
+            nds = {np.asarray(x).ndim for x in jax.tree_util.tree_leaves(out)}
+            nd = max(nds)
+            if len(nds) > 1: ctx.count('concat:mixed ranks (highest first)')
+            f, s2 = pu.split_along_axis(out, n0[0], axis if axis >= 0 else axis + nd, expect_same_dims=(len(nds) == 1))
             ctx.oracle('split_along_axis(concat_along_axis(ts), n0)[0] == ts[0]', same_tree(jax, f, trees[0]), {'trees': a['trees']})
 
 
@@ -554,7 +645,9 @@ def SP():
         import functools
         from dinosaur import spherical_harmonic as sh, coordinate_systems as cs, sigma_coordinates as sc
         impls = {'real': sh.RealSphericalHarmonics, 'fast': sh.FastSphericalHarmonics,
-                 'fast4': functools.partial(sh.FastSphericalHarmonics, base_shape_multiple=4)}
+                 'fast4': functools.partial(sh.FastSphericalHarmonics, base_shape_multiple=4),
+                 'fast8': functools.partial(sh.FastSphericalHarmonics, base_shape_multiple=8),
+                 'zeroimag': sh.RealSphericalHarmonicsWithZeroImag}
         _sp = (sh, cs, sc, impls)
     return _sp
 
@@ -566,9 +659,9 @@ def gen_spectral(ctx):
         pairs += [(int(a), int(a + rng.integers(0, 3)), int(b), int(b + rng.integers(0, 3)))
                   for a, b in rng.integers(1, 9, size=(24, 2))]
     for j, (mc, lc, mf, lf) in enumerate(pairs):
-        for impl in (['real', 'fast'] if quick and j % 2 else ['real', 'fast', 'fast4']):
+        for impl in (['real', 'fast', 'fast8'] if quick and j % 2 else ['real', 'fast', 'fast4', 'zeroimag']):
             yield 'spectral', {'Mc': mc, 'Lc': lc, 'Mf': mf, 'Lf': lf, 'impl': impl, 'K': int(rng.integers(1, 4)),
-                               'seed': int(rng.integers(0, 1000))}
+                               'seed': int(rng.integers(0, 1000)), 'data': ['random', 'top', 'random'][j % 3], 'forms': True}
 
 
 def _grid(M, L, impl, nodes=None):
@@ -592,7 +685,11 @@ def r_spectral(ctx, a):
     csc, csf = cs.CoordinateSystem(gc, vert), cs.CoordinateSystem(gf, vert)
     sc_, sf_ = gc.modal_shape, gf.modal_shape
     rng = np.random.Generator(np.random.PCG64(a['seed']))
-    def data(shape): return rng.integers(-20, 21, size=shape).astype(np.float64) / 4
+    def data(shape):
+        if a.get('data') == 'top':            # a single non-zero coefficient at the highest retained index
+            z = np.zeros(shape); z[..., -1, -1] = 1.5; z[..., 0, -1] = -2.0; z[..., -1, 0] = 0.75
+            return z
+        return rng.integers(-20, 21, size=shape).astype(np.float64) / 4
     ctx.count('spectral:impl=' + impl)
     hdr = lambda which, src, dst, ssh, dsh: [which, src.longitude_wavenumbers, src.total_wavenumbers, ssh[0], ssh[1],
                                              dst.longitude_wavenumbers, dst.total_wavenumbers, dsh[0], dsh[1]]
@@ -616,16 +713,44 @@ def r_spectral(ctx, a):
                     ctx.exact(name, _enc2(xo2[k]), flo(m))
         if out is not None:
             ctx.oracle('resampling leaves scalars and the tree structure alone',
-                       float(out['s']) == float(state['s']) and set(out) == set(state) and set(out['tr']) == set(state['tr']))
+                       float(out['s']) == float(state['s']) and set(out) == set(state) and set(out['tr']) == set(state['tr'])
+                       and all(float(out[k]) == float(state[k]) for k in state if k.startswith('py')))
+            for k in ('f4', 'i4'):
+                if k in state:
+                    o, i_ = np.asarray(out[k]), np.asarray(state[k])
+                    ctx.oracle('resampling keeps the dtype and the leading axes of every leaf',
+                               o.dtype == i_.dtype and o.shape == i_.shape[:-2] + tuple(dst.modal_shape), {'leaf': k, 'dtype': str(o.dtype)})
+                    m0, l0 = min(o.shape[-2], i_.shape[-2]), min(o.shape[-1], i_.shape[-1])
+                    ctx.oracle('resampling copies the shared block of every leaf', np.array_equal(o[..., :m0, :l0], i_[..., :m0, :l0]), {'leaf': k})
         return out
     state_c = {'x': data((K,) + sc_), 'tr': {'q': data(sc_), 'r5': data((1, 2, K) + sc_)}, 'r4': data((2, K) + sc_),
                's': np.float64(2.5)}
     state_f = {'x': data((K,) + sf_), 'tr': {'q': data(sf_), 'r5': data((1, 2, K) + sf_)}, 'r4': data((2, K) + sf_),
                's': np.float64(-1.5)}
+    if a.get('forms'):
+        state_c.update({'f4': data((2,) + sc_).astype(np.float32), 'i4': (4 * data(sc_)).astype(np.int32), 'pyfloat': 3.25, 'pyint': 7})
+        state_f.update({'f4': data((2,) + sf_).astype(np.float32), 'i4': (4 * data(sf_)).astype(np.int32), 'pyfloat': -0.5, 'pyint': -2})
+    snap_c = snapshot([state_c['x'], state_c['r4'], state_c['tr']['q'], state_c['tr']['r5']])
     up = run(cs.get_spectral_upsample_fn, 1, csc, csf, state_c, 'upsample')
     run(cs.get_spectral_downsample_fn, 0, csf, csc, state_f, 'downsample')
     run(cs.get_spectral_interpolate_fn, 2, csc, csf, state_c, 'interpolate(coarse->fine)')
     run(cs.get_spectral_interpolate_fn, 2, csf, csc, state_f, 'interpolate(fine->coarse)')
+    # option expect_same_vertical: a different vertical is rejected unless the flag is off
+    vert2 = sc.SigmaCoordinates.equidistant(K + 1)
+    csf_v = cs.CoordinateSystem(gf, vert2)
+    for getter, nm in ((cs.get_spectral_upsample_fn, 'upsample'), (cs.get_spectral_downsample_fn, 'downsample'),
+                       (cs.get_spectral_interpolate_fn, 'interpolate')):
+        try:
+            getter(csc, csf_v); raised = False
+        except ValueError:
+            raised = True
+        ctx.oracle('a different vertical coordinate is rejected when expect_same_vertical is on', raised, {'fn': nm})
+    if up is not None:
+        up_v = cs.get_spectral_upsample_fn(csc, csf_v, expect_same_vertical=False)(state_c)
+        ctx.oracle('expect_same_vertical=False resamples exactly like the default path', same_tree(jax, up_v, up))
+        up2 = cs.get_spectral_upsample_fn(csc, csf)(state_c)
+        ctx.oracle(PURE, same_tree(jax, up2, up) and
+                   snapshot([state_c['x'], state_c['r4'], state_c['tr']['q'], state_c['tr']['r5']]) == snap_c, {'fn': 'upsample'})
     if up is None:
         ctx.oracle('upsampling is rejected only when the target is smaller',
                    sf_[0] < sc_[0] or sf_[1] < sc_[1], {'coarse': sc_, 'fine': sf_})
@@ -659,7 +784,7 @@ def r_spectral(ctx, a):
         ctx.table_obligation('H_modal_axes_prefix (index -> (m,l) map of the finer grid extends the coarser one on its mask)', ok,
                              {'coarse_m': np.asarray(mcs).tolist(), 'fine_m': np.asarray(mfs).tolist()})
     # same function on a finer spectral grid with the same nodes: basis tables agree, synthesis agrees
-    if impl != 'fast4' and mf >= mc and lf >= lc:
+    if impl in ('real', 'fast', 'zeroimag') and mf >= mc and lf >= lc:
         nodes = (max(gc.longitude_nodes, 2 * mf + 1), gc.latitude_nodes)
         gc2, gf2 = _grid(mc, lc, impl, nodes), _grid(mf, lf, impl, nodes)
         bc, bf = gc2.spherical_harmonics.basis, gf2.spherical_harmonics.basis
@@ -727,6 +852,8 @@ def gen_attrs_model(ctx):
     n = 34 if quick else 340
     for i in range(n):
         lw = int(rng.integers(1, 7)); ln = int(rng.integers(2, 14)); lt = int(rng.integers(2, 9))
+        if i % 17 == 5: ln, lt = 512, 3          # tall
+        if i % 17 == 11: ln, lt = 4, 257         # wide
         kind = ['sigma', 'layer', 'pressure', 'sigma'][i % 4]
         K = int(rng.integers(1, 7))
         if kind == 'sigma':
@@ -739,8 +866,9 @@ def gen_attrs_model(ctx):
             v = {'kind': 'pressure', 'values': [float(x) for x in np.sort(rng.uniform(0.5, 1100.0, size=K))]}
         yield 'attrs_model', {'grid': [lw, lw + int(rng.integers(0, 3)), ln, lt],
                               'spacing': ['gauss', 'equiangular', 'equiangular_with_poles'][int(rng.integers(0, 3))],
-                              'offset': [0.0, float(rng.uniform(0, 1)), 0.1][int(rng.integers(0, 3))],
-                              'radius': [1.0, float(rng.uniform(0.5, 7e6)), None][int(rng.integers(0, 3))],
+                              'offset': [0.0, float(rng.uniform(0, 1)), 0.1, float(-rng.uniform(0, 7)), 7.5, 1e-9][int(rng.integers(0, 6))],
+                              'radius': [1.0, float(rng.uniform(0.5, 7e6)), None, 6.37122e6, 0.3][int(rng.integers(0, 5))],
+                              'persist': bool(i % 2),
                               'impl': ['RealSphericalHarmonics', 'FastSphericalHarmonics', 'RealSphericalHarmonicsWithZeroImag'][int(rng.integers(0, 3))],
                               'vertical': v, 'mut': muts[i % len(muts)]}
 
@@ -834,9 +962,11 @@ def _enc_attrs(at):
             ints += [0, int(v)]; flat += [0.0, float(v)]
         elif isinstance(v, str):
             ints += [1] + enc_key(v); flat += [1.0] + [float(t) for t in enc_key(v)]
-        elif isinstance(v, float):
+        elif isinstance(v, (float, np.floating)):
+            v = float(v)
             ints += [2, len(pool)]; pool.append(v); flat += [2.0, v]
-        elif isinstance(v, (list, tuple)):
+        elif isinstance(v, (list, tuple, np.ndarray)):
+            v = np.asarray(v).ravel().tolist()
             ints += [3, len(arrs)]; arrs.append([float(t) for t in v]); flat += [3.0, float(len(v))] + [float(t) for t in v]
         else:
             raise TypeError('unsupported attr value %r' % (v,))
@@ -865,6 +995,11 @@ def r_attrs_model(ctx, a):
     ctx.count('attrs_model:vertical=' + v['kind']); ctx.count('attrs_model:mut=%s' % a['mut'])
     # from_attrs on the (possibly damaged) dictionary
     at2 = dict(at); mut = a['mut']
+    if a.get('persist'):
+        # REAL persistence: the attributes come back from a netcdf file as numpy scalars / arrays
+        at2 = dict(x.xarray.load_dataset(bytes(x.xarray.Dataset(attrs=at).to_netcdf())).attrs)
+        ctx.count('attrs_model:persisted through netcdf')
+        ctx.count('attrs_model:persisted radius type=%s' % type(at2.get('radius')).__name__)
     if mut:
         if mut.startswith('drop:'): at2.pop(mut[5:])
         elif mut.startswith('htype:'): at2['horizontal_grid_type'] = mut[6:]
@@ -897,6 +1032,8 @@ def r_attrs_model(ctx, a):
                                       'latitude_spacing', 'longitude_offset', 'radius')) and cs2.vertical == cs.vertical \
             and type(cs2.vertical) is type(cs.vertical) and np.array_equal(cs2.vertical.centers, cs.vertical.centers)
         if ok and v['kind'] == 'sigma': ok = np.array_equal(cs2.vertical.boundaries, cs.vertical.boundaries)
+        if cs2 is None and a.get('persist') and v['kind'] == 'pressure' and len(v['values']) == 1:
+            ctx.count('attrs_model:one-level pressure not restorable from netcdf attrs (scalar attribute)'); ok = True
         ctx.oracle('coordinate system serialised to attrs is reconstructed with the same discretisation', ok,
                    {'check': 'fields of Model/Attrs.v restored', 'attrs': {k: at[k] for k in at}})
         if cs2 is not None and h.spherical_harmonics_impl is not g.spherical_harmonics_impl:
@@ -2005,6 +2142,11 @@ def r_readers(ctx, a):
         ok, got = guarded('xarray_to_primitive_equations_with_time_data',
                           lambda: xu.xarray_to_primitive_equations_with_time_data(ds, tracers_to_include=a['tracers']))
         if ok: _same_leaves(ctx, 'xarray_to_primitive_equations_with_time_data', got, pet, info)
+        ok, got = guarded('xarray_to_primitive_equations_with_time_data(values=shape)',
+                          lambda: xu.xarray_to_primitive_equations_with_time_data(ds, values='shape', tracers_to_include=a['tracers']))
+        if ok:
+            want = {k: (tuple(v.shape) if k != 'tracers' else {t: tuple(w.shape) for t, w in v.items()}) for k, v in pet.items()}
+            ctx.oracle(C19_XR, got == want, dict(info, check="reader option values='shape'", got=str(got)[:300]))
         # renaming wrappers around the same writer/reader
         ren = {'VO': 'vorticity', 'DIV': 'divergence', 'nondim_time': 'sim_time'}
         ok, dsr = guarded('data_to_xarray_with_renaming', lambda: xu.data_to_xarray_with_renaming(
@@ -2023,6 +2165,12 @@ def r_readers(ctx, a):
     if ok:
         ok, got = guarded('xarray_to_shallow_water_eq_data', lambda: xu.xarray_to_shallow_water_eq_data(ds))
         if ok: _same_leaves(ctx, 'xarray_to_shallow_water_eq_data', got, sw, info)
+        # the `values` option: 'shape' and 'dtype' instead of the arrays
+        for opt, fn in (('shape', lambda v: tuple(np.asarray(v).shape)), ('dtype', lambda v: np.asarray(v).dtype)):
+            ok, got = guarded('xarray_to_shallow_water_eq_data(values=%s)' % opt, lambda: xu.xarray_to_shallow_water_eq_data(ds, values=opt))
+            if ok:
+                ctx.oracle(C19_XR, set(got) == set(sw) and all(got[k] == fn(sw[k]) for k in sw),
+                           dict(info, check='reader option values=%r' % opt, got={k: str(v) for k, v in got.items()}))
 
     # ---- xarray_to_data_dict: (time, level, lon, lat) datasets only ---------------------------------------
     if S is None and T is not None:
